@@ -441,6 +441,18 @@ class Runner:
             out = keep[-4:]
         return dict(kind=kind, where=where, text=" | ".join(out)[-1500:])
 
+    def rank_positions(self, s):
+        """Last position line every rank wrote to the session log."""
+        last = {}
+        try:
+            for l in open(self.paths(s)[2], errors="replace"):
+                m = re.match(r"E4-RANK (\d+): (.*)", l)
+                if m:
+                    last[int(m.group(1))] = m.group(2).strip()
+        except OSError:
+            pass
+        return "; ".join("rank %d %s" % kv for kv in sorted(last.items()))
+
     def stacks(self, s):
         """Stalled session: stacks of all its ranks via gdb, reduced to the
         frames inside the checked components.  -> (where, text)"""
@@ -588,6 +600,7 @@ def run_sessions(runner, sessions, deadline_at, on_result, on_end,
                 diag["kind"] = "hang"
                 # (no gdb for a launch that never got going: nothing to see)
                 w, st = runner.stacks(s) if s.seen_bytes else ("", "")
+                st = (runner.rank_positions(s) + " || " + st).strip(" |")
                 diag["where"] = w
                 diag["text"] = "no progress for %.0fs (killed); stacks: %s" % (
                     stalled, st or diag["text"])
